@@ -1,21 +1,29 @@
+//! scratch probes of the scenario engine (not part of any check)
 use ldk_verif_harness::common::*;
 use ldk_verif_harness::sim::*;
 fn main() {
 	let _args = parse_args("simtest");
-	let mut net = Net::new(3, vec![None, None, None]);
-	let c0 = net.open(0, 1, 1_000_000, 400_000_000);
-	let c1 = net.open(1, 2, 1_000_000, 400_000_000);
-	let p = net.send(&[0, 1, 2], &[c0, c1], 5_000_000, 70).unwrap();
-	net.settle(6);
-	eprintln!("claimable at 2: {:?}", net.claimable[2].len());
-	net.claim(p);
-	// deliver fulfill to node 1 then restart node 1 mid-way
-	if let Some((i, j)) = net.any_queued() { net.deliver(i, j); }
-	let r = net.restart(1);
-	eprintln!("restart: {:?}", r);
-	net.reconnect(0, 1); net.reconnect(1, 2);
-	net.settle(10);
-	for o in &net.trace { if !matches!(o, Obs::Balance{..}) { eprintln!("  {}", fmt_obs(o)); } }
-	for i in 0..3 { eprintln!("{:?}", net.channel_dump(i)); }
+	let cfg = Some(lightning::ln::functional_test_utils::test_legacy_channel_config());
+	let mut net = Net::new(2, vec![cfg.clone(), cfg]);
+	let c = net.open(0, 1, 100_000, 50_000_000);
+	for _ in 0..2 { let p = net.send(&[0, 1], &[c], 19_160_000, 80).unwrap(); net.settle(8); net.claim(p); net.settle(8); }
+	eprintln!("A {:?}", net.channel_dump(0));
+	for i in 0..2 { *net.nodes[i].fee_estimator.sat_per_kw.lock().unwrap() = 10_000; }
+	net.nodes[0].node.timer_tick_occurred(); net.pump(0);
+	net.settle(8);
+	eprintln!("feerate now {:?}", net.nodes[0].node.list_channels()[0].feerate_sat_per_1000_weight);
+	eprintln!("A {:?}", net.channel_dump(0));
+	eprintln!("B {:?}", net.channel_dump(1));
+	for k in 0..4 {
+		let lim = net.nodes[1].node.list_channels()[0].next_outbound_htlc_limit_msat;
+		let amt = 7_500_000u64.min(lim); if amt == 0 { break; }
+		eprintln!("B limit {} -> sending {}", lim, amt);
+		let r = net.send(&[1, 0], &[c], amt, 80);
+		eprintln!("send {} => {:?}", k, r);
+		net.settle(8);
+	}
+	for o in &net.trace { if matches!(o, Obs::Event{..} | Obs::ProtoError{..}) { eprintln!("  {}", fmt_obs(o)); } }
+	eprintln!("A {:?}", net.channel_dump(0));
+	eprintln!("B {:?}", net.channel_dump(1));
 	std::mem::forget(net);
 }
